@@ -70,3 +70,33 @@ Example ex_replay_decodes :
   skipn 509 (decode_file ex_g im' (first_field h') 515) = [1; 2; 3; 4; 5; 6] /\
   img_read im' (1024 + 3) 3 = [3; 240; 255].
 Proof. vm_compute. repeat split. Qed.
+
+(* the invariant on a NON-TRIVIAL state: after the history above the ghosts are sz = 515, l = [2; 3] (obtained from the
+   theorem, the chain identified by running the decoder) *)
+Definition ex_final : vstate * list fresult := vol_run ex_g (ex_im, ex_fi, empty_file) ex_ops.
+Definition ex_im' : image := fst (fst (fst ex_final)).
+Definition ex_fi' : fsinfo := snd (fst (fst ex_final)).
+Definition ex_h' : fhandle := snd (fst ex_final).
+
+Example ex_final_facts :
+  h_first ex_h' = Some 2 /\ h_size ex_h' = Some 515 /\ chain_from ex_g ex_im' 2 (Abs.chain_fuel ex_g) = Some [2; 3].
+Proof. vm_compute. repeat split. Qed.
+
+Example ex_vol_inv_final : VolInv ex_g ex_im' ex_fi' ex_h' 515 [2; 3].
+Proof.
+  destruct (vol_run_refines ex_g ex_geom_ok ex_ops ex_im ex_fi empty_file 0 [] ex_ops_ok ex_vol_inv)
+    as (im' & fi' & h' & rs & sz' & l' & Hr & V & _ & Hd).
+  assert (im' = ex_im' /\ fi' = ex_fi' /\ h' = ex_h') as (-> & -> & ->).
+  { unfold ex_im', ex_fi', ex_h', ex_final. rewrite Hr. repeat split. }
+  clear Hr.
+  destruct ex_final_facts as (F1 & F2 & F3).
+  pose proof V as (_ & _ & I & _).
+  assert (sz' = 515) as ->.
+  { pose proof (inv_size_eq fstore (val_ft (ft_of ex_g)) (g_cluster_size ex_g) (g_clusters ex_g) _ _ _ _ I) as E.
+    rewrite F2 in E. injection E as <-. reflexivity. }
+  assert (l' = [2; 3]) as ->; [|exact V].
+  unfold chain_decodes in Hd. rewrite F1 in Hd.
+  assert (g_clusters ex_g <= 131072) as Hcl by (vm_compute; discriminate).
+  pose proof (chain_fuel_enough ex_g (world_of ex_g ex_im' ex_fi') ex_h' 515 l' I (or_introl Hcl)) as Hf.
+  specialize (Hd _ Hf). rewrite F3 in Hd. injection Hd as <-. reflexivity.
+Qed.
